@@ -33,6 +33,13 @@ deriving Repr
 /-- a fresh object -/
 def new (det : Bool) : Obj := ⟨det, [], [], [], [], []⟩
 
+/-- the constructor called with sets of states, symbols, start and final states (no transition
+function): start and final states are registered as states; a `DeterministicFiniteAutomaton` takes at
+most one start state -/
+def mk (det : Bool) (states syms starts finals : List Nat) : Obj :=
+  let starts' := if det then starts.take 1 else starts.eraseDups
+  ⟨det, (states ++ finals ++ starts').eraseDups, syms.eraseDups, starts', finals.eraseDups, []⟩
+
 /-- `set.add` -/
 def ins (x : Nat) (l : List Nat) : List Nat := if x ∈ l then l else l ++ [x]
 
